@@ -13,7 +13,7 @@ void h_isResClassIII(void) { H3Index h = nondet_u64(); int r = isResClassIII(h);
 void h_maxFaceCount(void) { H3Index h = nondet_u64(); int *out; H3Error e = maxFaceCount(h, out); __CPROVER_assert(0, "canary maxFaceCount"); }
 void h_describeH3Error(void) { H3Error err = nondet_u32(); const char *s = describeH3Error(err); __CPROVER_assert(0, "canary describeH3Error"); }
 void h_maxGridDiskSize(void) { int k = nondet_int(); int64_t *out; H3Error e = maxGridDiskSize(k, out); __CPROVER_assert(0, "canary maxGridDiskSize"); }
-void h_gridRingUnsafe(void) { H3Index origin = nondet_u64(); int k = nondet_int(); H3Index *out; H3Error e = gridRingUnsafe(origin, k, out); __CPROVER_assert(0, "canary gridRingUnsafe"); }
+void h_gridRingUnsafe(void) { H3Index origin = nondet_u64(); int k = nondet_int(); H3Index *out; h3v_g = nondet_i64(); H3Error e = gridRingUnsafe(origin, k, out); __CPROVER_assert(0, "canary gridRingUnsafe"); }
 void h_cellToLocalIj(void) { H3Index origin = nondet_u64(), index = nondet_u64(); uint32_t mode = nondet_u32(); CoordIJ *out; H3Error e = cellToLocalIj(origin, index, mode, out); __CPROVER_assert(0, "canary cellToLocalIj"); }
 void h_localIjToCell(void) { H3Index origin = nondet_u64(); const CoordIJ *ij; uint32_t mode = nondet_u32(); H3Index *out; H3Error e = localIjToCell(origin, ij, mode, out); __CPROVER_assert(0, "canary localIjToCell"); }
 void h_gridDistance(void) { H3Index a = nondet_u64(), b = nondet_u64(); int64_t *out; H3Error e = gridDistance(a, b, out); __CPROVER_assert(0, "canary gridDistance"); }
